@@ -113,8 +113,8 @@ impl Brick {
     pub fn merge_bricks_with_equal_content(&self, other: Brick) -> Self {
         Brick {
             sequence: self.sequence.clone(),
-            min: self.min + other.min,
-            max: self.max + other.max,
+            min: self.min.saturating_add(other.min),
+            max: self.max.saturating_add(other.max),
         }
     }
 
